@@ -74,6 +74,9 @@ def correspondence(ctx):
     ctx.sample({"conversion_case": {"cs": cs, "L": L, "dt": dt, "D": D, "N": N, "M": M}})
     # every member of the specific/generic/normalized/difficulty families against the model evaluated on
     # the *documented* equivalent (steppers.py): the same model definition serves all of them
+    # the linear symbol regenerated from EVERY class's `_build_linear_operator` (specific, generic, normalized, difficulty,
+    # reaction, Navier-Stokes) against the array the class builds — every boolean option combination
+    stepcorr.gensym_sweep(ctx, [n for n in S.registry().keys()])
     stepcorr.sweep(ctx, FAMILY, orders_for=lambda nm: [0] if nm in S.LINEAR else [0, 1, 2, 3, 4],
                    trials=1 if ctx.tier == "quick" else 4, Ds=(1, 2) if ctx.tier == "quick" else (1, 2, 3))
 
@@ -158,7 +161,8 @@ def probe_pairs(seed, D, N, order):
 
 
 def probe_rescaling(seed, D, N, order):
-    """(L, dt, coeffs) -> normalized stepper gives the same step; rescaling L, dt with rescaled coeffs too"""
+    """(L, dt, coeffs) -> normalized and difficulty steppers give the same step; rescaling L, dt with rescaled coeffs too —
+    for EVERY combination of the convection options (a flag lost on the way into one interface shows here)"""
     import jax.numpy as jnp
     import exponax as ex
     gen = ex.stepper.generic
@@ -166,25 +170,30 @@ def probe_rescaling(seed, D, N, order):
     L, dt = float(rng.uniform(1, 6)), float(10 ** rng.uniform(-2, -0.5))
     co = (0.0, float(rng.uniform(-1, 1)), float(rng.uniform(0.01, 0.1)))
     b = float(rng.uniform(-1, 1))
-    single = bool(rng.integers(0, 2))
-    C = 1 if single else D
-    u = S.random_state(rng, C, D, N, "smooth")
-    g = gen.GeneralConvectionStepper(D, L, N, dt, linear_coefficients=co, convection_scale=b, single_channel=single, order=order)
-    al = tuple(c * dt / L ** j for j, c in enumerate(co))
-    n = gen.NormalizedConvectionStepper(D, N, normalized_linear_coefficients=al, normalized_convection_scale=b * dt / L,
-                                        single_channel=single, order=order)
-    gam = tuple(a if j == 0 else a * N ** j * 2 ** (j - 1) * D for j, a in enumerate(al))
-    mx = 1.3
-    dfc = gen.DifficultyConvectionStepper(D, N, linear_difficulties=gam, convection_difficulty=b * dt / L * mx * N * D,
-                                          maximum_absolute=mx, single_channel=single, order=order)
-    s, t = 2.5, 0.4
-    g2 = gen.GeneralConvectionStepper(D, s * L, N, t * dt, linear_coefficients=tuple(c * s ** j / t for j, c in enumerate(co)),
-                                      convection_scale=b * s / t, single_channel=single, order=order)
-    y = np.asarray(g(jnp.asarray(u)))
-    sc = float(np.max(np.abs(y))) + 1e-12
-    errs = {k: float(np.max(np.abs(np.asarray(m(jnp.asarray(u))) - y))) for k, m in
-            [("normalized", n), ("difficulty", dfc), ("rescaled", g2)]}
-    return {"ok": all(e <= 1e-9 * sc + 1e-12 for e in errs.values()), "errs": errs, "scale": sc}
+    worst, allerrs, scale = True, {}, 0.0
+    for single in (False, True):
+        for cons in (False, True):
+            C = 1 if single else D
+            u = S.random_state(rng, C, D, N, "noise" if D > 1 else "smooth")
+            kw = dict(single_channel=single, conservative=cons, order=order)
+            g = gen.GeneralConvectionStepper(D, L, N, dt, linear_coefficients=co, convection_scale=b, **kw)
+            al = tuple(c * dt / L ** j for j, c in enumerate(co))
+            n = gen.NormalizedConvectionStepper(D, N, normalized_linear_coefficients=al, normalized_convection_scale=b * dt / L, **kw)
+            gam = tuple(a if j == 0 else a * N ** j * 2 ** (j - 1) * D for j, a in enumerate(al))
+            mx = 1.3
+            dfc = gen.DifficultyConvectionStepper(D, N, linear_difficulties=gam, convection_difficulty=b * dt / L * mx * N * D,
+                                                  maximum_absolute=mx, **kw)
+            s_, t_ = 2.5, 0.4
+            g2 = gen.GeneralConvectionStepper(D, s_ * L, N, t_ * dt, linear_coefficients=tuple(c * s_ ** j / t_ for j, c in enumerate(co)),
+                                              convection_scale=b * s_ / t_, **kw)
+            y = np.asarray(g(jnp.asarray(u)))
+            sc = float(np.max(np.abs(y))) + 1e-12
+            errs = {f"{k}(single={single},conservative={cons})": float(np.max(np.abs(np.asarray(m(jnp.asarray(u))) - y)))
+                    for k, m in [("normalized", n), ("difficulty", dfc), ("rescaled", g2)]}
+            worst = worst and all(e <= 1e-9 * sc + 1e-12 for e in errs.values())
+            allerrs.update({k: e for k, e in errs.items() if not e <= 1e-9 * sc + 1e-12} or {})
+            scale = max(scale, sc)
+    return {"ok": bool(worst), "errs": allerrs, "scale": scale}
 
 
 def probe_inverse(seed):
